@@ -569,7 +569,7 @@ pub fn run(args: &Args) -> i32 {
     report.set("pairs_with_a_path", json!(c.with_path.load(Ordering::SeqCst)));
     report.set("pairs_with_several_paths", json!(c.with_choice.load(Ordering::SeqCst)));
     report.set("cases_not_judged_documented_ambiguous", json!(c.undefined.load(Ordering::SeqCst)));
-    report.set("excluded", json!(["distance conditions (the statement does not mention them)", "beyond whose condition fails at the origin: both readings accepted (the search stops at the origin => no path / beyond() does not block at the origin)"]));
+    report.set("excluded", json!(["distance conditions in path searches: the statement does not mention them and the documentation does not define the distance at which an element that lies on several candidate paths is evaluated ('Elements will never be examined twice during any search' even allows evaluating it once, at whatever distance it is met first), nor when a distance condition stops (= makes the element unusable); a conformant implementation can legitimately differ, so no expectation is demanded", "beyond whose condition fails at the origin: both readings accepted (the search stops at the origin => no path / beyond() does not block at the origin)"]));
     report.set("condition_forms", json!(condition_forms().iter().map(|f| f.0).collect::<Vec<_>>()));
     report.set("violating_cases", json!(report.violation_count()));
     report.assume("a missing id as endpoint may be answered with an error (documented) or an empty result");
